@@ -87,7 +87,7 @@ def main():
     only = os.environ.get("ONLY")
     if only:
         cands = [c for c in cands if c[1].split("-")[0] in only.split(",") or c[1] in only.split(",")]
-    with ThreadPoolExecutor(max_workers=8) as ex:
+    with ThreadPoolExecutor(max_workers=int(os.environ.get("JOBS", "8"))) as ex:
         results = list(ex.map(lambda c: evaluate(*c), cands))
     for r in results:
         ok = r.get("applies") and r.get("tests_pass") and r.get("equivalent") in (True, None)
